@@ -133,6 +133,9 @@ theorem flushInv_step {s s' : QState} {ev : Ev} (hr : Reachable s) (hcap : 0 < s
   | forget =>
     simp only [step] at h; split at h <;> cases h
     exact flushInv_frame hi rfl rfl rfl rfl rfl rfl (Nat.le_refl _) id (fun n h => ⟨n, h⟩)
+  | setSubscriber b =>
+    simp only [step] at h; cases h
+    exact flushInv_frame hi rfl rfl rfl rfl rfl rfl (Nat.le_refl _) id (fun n h => ⟨n, h⟩)
   | dropJoinBegin =>
     simp only [step] at h; split at h <;> cases h
     exact flushInv_frame hi rfl rfl rfl rfl rfl rfl (Nat.le_refl _) id (fun n h => ⟨n, h⟩)
@@ -402,6 +405,7 @@ theorem completed_origin {s s' : QState} {ev : Ev} {i : Nat} (h : step s ev = so
   | clone => exfalso; simp only [step] at h; split at h <;> cases h; simpa using hdrop [] (by simp)
   | dropHandle => exfalso; simp only [step] at h; split at h <;> cases h; simpa using hdrop [] (by simp)
   | forget => exfalso; simp only [step] at h; split at h <;> cases h; simpa using hdrop [] (by simp)
+  | setSubscriber b => exfalso; simp only [step] at h; cases h; simpa using hdrop [] (by simp)
   | dropJoinBegin => exfalso; simp only [step] at h; split at h <;> cases h; simpa using hdrop [] (by simp)
   | dropJoinUnpark => exfalso; simp only [step] at h; split at h <;> cases h; simpa using hdrop [] (by simp)
   | dropJoinEnd =>
@@ -570,6 +574,7 @@ theorem marks_pushOrder_grow {s s' : QState} {ev : Ev} (h : step s ev = some s')
   | clone => simp only [step] at h; split at h <;> cases h; exact ⟨⟨[], by simp⟩, ⟨[], by simp⟩⟩
   | dropHandle => simp only [step] at h; split at h <;> cases h; exact ⟨⟨[], by simp⟩, ⟨[], by simp⟩⟩
   | forget => simp only [step] at h; split at h <;> cases h; exact ⟨⟨[], by simp⟩, ⟨[], by simp⟩⟩
+  | setSubscriber b => simp only [step] at h; cases h; exact ⟨⟨[], by simp⟩, ⟨[], by simp⟩⟩
   | dropJoinBegin => simp only [step] at h; split at h <;> cases h; exact ⟨⟨[], by simp⟩, ⟨[], by simp⟩⟩
   | dropJoinUnpark => simp only [step] at h; split at h <;> cases h; exact ⟨⟨[], by simp⟩, ⟨[], by simp⟩⟩
   | dropJoinEnd => simp only [step] at h; split at h <;> cases h; exact ⟨⟨[], by simp⟩, ⟨[], by simp⟩⟩
@@ -796,6 +801,7 @@ theorem wakerInv_step {s s' : QState} {ev : Ev} (hi : WakerInv s) (h : step s ev
   | clone => simp only [step] at h; split at h <;> cases h; exact ⟨hi.ebwLe, hi.progress, hi.noParkWaiting, hi.signalSeen, hi.exitedClean⟩
   | dropHandle => simp only [step] at h; split at h <;> cases h; exact ⟨hi.ebwLe, hi.progress, hi.noParkWaiting, hi.signalSeen, hi.exitedClean⟩
   | forget => simp only [step] at h; split at h <;> cases h; exact ⟨hi.ebwLe, hi.progress, hi.noParkWaiting, hi.signalSeen, hi.exitedClean⟩
+  | setSubscriber b => simp only [step] at h; cases h; exact ⟨hi.ebwLe, hi.progress, hi.noParkWaiting, hi.signalSeen, hi.exitedClean⟩
   | dropJoinBegin => simp only [step] at h; split at h <;> cases h; exact ⟨hi.ebwLe, hi.progress, hi.noParkWaiting, hi.signalSeen, hi.exitedClean⟩
   | dropJoinUnpark =>
     simp only [step] at h; split at h <;> cases h
@@ -943,6 +949,7 @@ theorem c04_dead_completion_origin {s s' : QState} {ev : Ev} {i : Nat} (h : step
   | clone => exfalso; simp only [step] at h; split at h <;> cases h; simpa using hdrop [] (by simp)
   | dropHandle => exfalso; simp only [step] at h; split at h <;> cases h; simpa using hdrop [] (by simp)
   | forget => exfalso; simp only [step] at h; split at h <;> cases h; simpa using hdrop [] (by simp)
+  | setSubscriber b => exfalso; simp only [step] at h; cases h; simpa using hdrop [] (by simp)
   | dropJoinBegin => exfalso; simp only [step] at h; split at h <;> cases h; simpa using hdrop [] (by simp)
   | dropJoinUnpark => exfalso; simp only [step] at h; split at h <;> cases h; simpa using hdrop [] (by simp)
   | dropJoinEnd =>
